@@ -174,7 +174,11 @@ class Contract:
         known=(),
         opaque=(),
         assume_post=(),
+        forbid_reads=(),
+        thorough_only=False,
     ):
+        self.forbid_reads = list(forbid_reads)
+        self.thorough_only = thorough_only
         self.target = target  # "pdb2pqr.cells:Cells.add_cell" or None for a harness
         self.prop = prop if isinstance(prop, (list, tuple)) else [prop]
         self.params = params
